@@ -13,6 +13,7 @@ import (
 
 	"github.com/glebziz/fs_db"
 	adaptererrors "github.com/glebziz/fs_db/internal/adapter/errors"
+	"github.com/glebziz/fs_db/internal/model"
 	store "github.com/glebziz/fs_db/internal/proto"
 	"github.com/glebziz/fs_db/internal/utils/grpc/interceptors/server"
 	"github.com/glebziz/fs_db/internal/verif/simrt"
@@ -27,6 +28,9 @@ type UnknownTxCase struct {
 	World WorldSpec `json:"world"`
 	Ops   []string  `json:"ops"` // get keys commit rollback del set
 	TxID  string    `json:"txid"`
+	// OnlyEnd: issue Commit/Rollback only (with no id, or the main id, every other request is a
+	// legitimate autocommit request)
+	OnlyEnd bool `json:"only_end,omitempty"`
 }
 
 type propC13 struct{ seqProp }
@@ -55,9 +59,19 @@ func (p propC13) Gen(r *simrt.Rand, idx int, tier string) any {
 		case 5:
 			c.TxID = c.TxID + "x"
 		}
+		if idx%50 == 49 {
+			// a Commit or Rollback that names no transaction at all, or the id the server uses for
+			// "no transaction": there is nothing to end - Commit is refused, Rollback is a no-op, and
+			// the committed state stays what it is
+			c.TxID = []string{"", model.MainTxId}[r.Intn(2)]
+			c.OnlyEnd = true
+		}
 		c.Sched = SchedSpec{Seed: r.Uint64(), Strategy: "seqbg", MaxSteps: 2_000_000}
 		all := []string{"get", "keys", "commit", "rollback", "del", "set"}
 		for _, i := range r.Perm(len(all)) {
+			if c.OnlyEnd && all[i] != "commit" && all[i] != "rollback" {
+				continue
+			}
 			c.Ops = append(c.Ops, all[i])
 		}
 		return C13Case{Unknown: &c}
@@ -135,6 +149,9 @@ func unknownTxExec(c UnknownTxCase, choices []int32) RunOut {
 		store.RegisterStoreV1Server(l, w.C.StoreService())
 		raw := store.NewStoreV1Client(l)
 		ctx := metadata.AppendToOutgoingContext(w.Ctx, server.TxIdKey, c.TxID)
+		if c.TxID == "" {
+			ctx = w.Ctx // no transaction id metadata at all
+		}
 		if err := w.DB.Set(w.Ctx, "k", payload(1, 20)); err != nil {
 			infra = err.Error()
 			return
